@@ -646,6 +646,8 @@ def eval_c11(case):
     if case.get("parser_ops"):
         ev.skipped = "parser options other than drop_invalid_rows (covered by C03)"
         return ev
+    if case.get("two_constraints_one_column"):
+        ev.labels.append("two-constraints-one-column")
     plain = copy.deepcopy(spec)
     plain["drop_invalid_rows"] = False
     if case.get("nan_cells"):
@@ -888,6 +890,25 @@ def strat_c11(draw):
     case = draw(strat_case(parsers="none", containers=("df", "df", "lf_full"), regex_rate=2))
     case["spec"]["drop_invalid_rows"] = True
     case["lazy"] = True
+    if draw(st.integers(0, 7)) == 0:
+        # one column that fails two row-level constraints on *different* rows (a null under nullable=False, a repeated value
+        # under unique=True): every constraint's rows must go, whichever is evaluated first (a fixed share of the cases)
+        cands = [(c, t) for c in case["spec"]["columns"] if not c.get("regex")
+                 for t in case["table"]["columns"] if t["name"] == c["name"] and len(t["cells"]) >= 3
+                 and t["phys"] in ("float64", "object") and c.get("dtype") in ("float64", "str")
+                 and all(x is None or isinstance(x, (str if t["phys"] == "object" else float)) for x in t["cells"])]
+        if cands:
+            c, t = draw(st.sampled_from(cands))
+            vals = [x for x in t["cells"] if x is not None] or ([0.5] if t["phys"] == "float64" else ["a"])
+            cells = list(t["cells"])
+            i, j, k = list(draw(st.permutations(range(len(cells)))))[:3]
+            cells[i] = None
+            cells[j] = cells[k] = vals[0]
+            t["cells"] = cells
+            c["nullable"], c["unique"], c["checks"] = False, True, []
+            if t["name"] in (case["spec"].get("unique") or []):
+                case["spec"]["unique"] = None
+            case["two_constraints_one_column"] = True
     if draw(st.integers(0, 4)) == 0:
         # float NaN cells in a non-nullable float column without other constraints (polars documents that its nullable
         # check treats NaN like null): the rows holding them are invalid
